@@ -85,6 +85,16 @@ CHECKS = {
         note="Trusted: mc/fscm.py; ancestral components (Definition 4.2) are not covered by this check.",
         design="4/C19",
     ),
+    "C09": dict(
+        text="Every (target graph, source domain (transport-marked set S, policy set Z, two topological orders), event or "
+        "(outcome | condition) query) within the bound is passed to ctfTRu / ctfTR after y0's own input validation; the returned "
+        "expression is evaluated on a multi-domain functional witness family (source model shares every mechanism with the target "
+        "except at S and Z) by exhaustive noise enumeration with the returned event's values and compared with the target "
+        "(conditional) probability; Zero() only for impossible events; after validation only a result or None may come back. "
+        "Defects inherited from SIMPLIFY / ctf-factor handling are listed with an index of failing inputs.",
+        note="Trusted: mc/fscm.py multi-domain family; errors raised by y0's input-validation routines count as refusals.",
+        design="4/C09",
+    ),
     "C10": dict(
         text="Breadth-first exploration of DSL operation sequences from a 24-atom alphabet (thorough: also three operations deep "
         "from a 12-atom alphabet): for every well-scoped expression reached and every ordering, the value function of the "
